@@ -448,6 +448,17 @@ func (ev *SpecEval) callSpec(e *SExpr) SVal {
 			alts = append(alts, And(cs...))
 		}
 		return SVal{V: Or(alts...), T: boolT}
+	case "lookup": // lookup(m, key): m[key] of a Go map value
+		mv := ev.eval(e.Args[0])
+		mt, ok := mv.T.Underlying().(*types.Map)
+		if !ok {
+			ev.fail("lookup on non-map %s", mv.T)
+		}
+		m := ev.rvalue(mv).(*Term)
+		key := mapKeyTerm(ev.rvalue(ev.eval(e.Args[1])))
+		cell := MKey(m, key)
+		has := Select(ev.cur.heapGet("M:has"), cell)
+		return SVal{V: iteValue(has, ev.cur.load(cell, mt.Elem()), zeroValue(mt.Elem())), T: mt.Elem()}
 	case "store": // store(array, index, value)
 		a := ev.term(e.Args[0])
 		i := ev.term(e.Args[1])
